@@ -117,7 +117,7 @@ fn tf(b: bool) -> &'static str {
 /// the accessors of the wrapped backend entry, called on the concrete type (C13: the enum must be transparent)
 fn inner_view<E: Entry>(e: &E) -> Value {
     json!({
-        "path": pv(e.path()), "alt": pv(e.alt()), "rel": pv(e.rel()),
+        "path": pv(e.path()), "alt": pv(e.alt()), "rel": pv(e.rel()), "name": chars(&e.file_name().map(|n| n.to_string_lossy().to_string()).unwrap_or_default()),
         "dir": tf(e.is_dir()), "file": tf(e.is_file()), "link": tf(e.is_symlink()),
         "ldir": tf(e.is_symlink_dir()), "lfile": tf(e.is_symlink_file()),
         "exec": tf(e.is_exec()), "ro": tf(e.is_readonly()), "following": tf(e.following()), "mode": e.mode(),
@@ -136,7 +136,7 @@ pub fn entry_view(e: &VfsEntry) -> Value {
 }
 fn entry_view0(e: &VfsEntry) -> Value {
     json!({
-        "path": pv(e.path()), "alt": pv(e.alt()), "rel": pv(e.rel()),
+        "path": pv(e.path()), "alt": pv(e.alt()), "rel": pv(e.rel()), "name": chars(&e.file_name().map(|n| n.to_string_lossy().to_string()).unwrap_or_default()),
         "dir": tf(e.is_dir()), "file": tf(e.is_file()), "link": tf(e.is_symlink()),
         "ldir": tf(e.is_symlink_dir()), "lfile": tf(e.is_symlink_file()),
         "exec": tf(e.is_exec()), "ro": tf(e.is_readonly()), "following": tf(e.following()), "mode": e.mode(),
